@@ -7,6 +7,7 @@ import SJ.Proofs.BlockScan
 import SJ.Generated.Consts
 import SJ.Proofs.Stage2Table
 import SJ.Proofs.GoNumber
+import SJ.Proofs.GoStage2
 /-
 C01 — Parse accepts exactly the JSON grammar (object or array at the root).
 Theorems about the validators' tables; the statement about the whole parser is in progress (see DESIGN.md §7).
@@ -163,5 +164,69 @@ theorem C01_atoms_and_numbers_follow_source (buf : Bytes) (start : Nat) (fuel : 
       ∃ s, runFun goFuns goparseNumber fuel ⟨[("buf", .bytes (buf.extract start buf.size))], tape⟩ =
         .ret s [.u64 0, .u64 0]) :=
   go_number_source_tie buf start fuel tape
+
+open SJ.GoSem SJ.Generated SJ.GoRebuild SJ.GoStage2 in
+/-- **Source tie** (DESIGN §6.3). The stage-2 actions — `get_current_loc`, `write_tape`, `writeTapeTagVal`,
+    `writeTapeTagValFlags`, `write_tape_s64`, `write_tape_double`, `annotate_previousloc` (`parsed_json.go`), the Go glue
+    of `parseString` (padding of the end of the input, the two assembly kernels by contract = the scalar decoder, the
+    re-allocation of the string buffer, the tape words written) and `addNumber` (`stage2_build_tape_amd64.go`) — are
+    printed from /repo as syntax trees on every run. Their meaning under `GoSem.exec` is what the hand model's machine
+    `M` does at the corresponding step (`M.writeTape`, `M.annotate`, `M.parseString`, `parseNumber` + two pushes): the
+    same words appended to the tape, the same bytes appended to the string buffer, `false` exactly when the model
+    rejects, a panic exactly when the model's `annotate` is out of range. For every machine state, buffer and fuel;
+    `parseString` for `idx ≤ len(msg)` (beyond it Go panics on `pj.Message[idx:]`, shown by example in `Proofs/GoStage2`). -/
+theorem C01_stage2_actions_follow_source (m : M) (cfg : Cfg) (buf : Bytes) (fuel : Nat) :
+    -- get_current_loc
+    (runFun goFuns goParsedJson_get_current_loc fuel ⟨stEnv m buf, m.tape⟩ = .ret ⟨stEnv m buf, m.tape⟩ [.u64 m.loc]) ∧
+    -- write_tape; `val | uint64(c)<<56` is `mkWord c val` for every `val`
+    (∀ (val : UInt64) (c : UInt8), val ||| (c.toUInt64 <<< 56) = mkWord c val) ∧
+    (∀ (val : UInt64) (c : UInt8),
+      runFun goFuns goParsedJson_write_tape fuel ⟨stEnv m buf ++ [("val", .u64 val), ("c", .u8 c)], m.tape⟩ =
+        .ret ⟨stEnv (m.writeTape val c) buf ++ [("val", .u64 val), ("c", .u8 c)], (m.writeTape val c).tape⟩ []) ∧
+    -- writeTapeTagVal
+    (∀ (tag : UInt8) (val : UInt64),
+      runFun goFuns goParsedJson_writeTapeTagVal fuel ⟨stEnv m buf ++ [("tag", .u8 tag), ("val", .u64 val)], m.tape⟩ =
+        .ret ⟨stEnv { m with tape := (m.tape.push (mkWord tag 0)).push val } buf ++ [("tag", .u8 tag), ("val", .u64 val)],
+          (m.tape.push (mkWord tag 0)).push val⟩ []) ∧
+    -- writeTapeTagValFlags
+    (∀ (id val : UInt64),
+      runFun goFuns goParsedJson_writeTapeTagValFlags fuel ⟨stEnv m buf ++ [("id", .u64 id), ("val", .u64 val)], m.tape⟩ =
+        .ret ⟨stEnv { m with tape := (m.tape.push id).push val } buf ++ [("id", .u64 id), ("val", .u64 val)],
+          (m.tape.push id).push val⟩ []) ∧
+    -- write_tape_s64
+    (∀ (val : Int),
+      runFun goFuns goParsedJson_write_tape_s64 (fuel + 1) ⟨stEnv m buf ++ [("val", .int val)], m.tape⟩ =
+        .ret ⟨stEnv { m with tape := (m.tape.push (mkWord tagInteger 0)).push (ofInt64 val) } buf ++ [("val", .int val)],
+          (m.tape.push (mkWord tagInteger 0)).push (ofInt64 val)⟩ []) ∧
+    -- write_tape_double
+    (∀ (d : UInt64),
+      runFun goFuns goParsedJson_write_tape_double (fuel + 1) ⟨stEnv m buf ++ [("d", .u64 d)], m.tape⟩ =
+        .ret ⟨stEnv { m with tape := (m.tape.push (mkWord tagFloat 0)).push d } buf ++ [("d", .u64 d)],
+          (m.tape.push (mkWord tagFloat 0)).push d⟩ []) ∧
+    -- annotate_previousloc
+    (∀ (at_ val : UInt64),
+      match m.annotate at_ val with
+      | some m' => runFun goFuns goParsedJson_annotate_previousloc fuel
+          ⟨stEnv m buf ++ [("saved_loc", .u64 at_), ("val", .u64 val)], m.tape⟩ =
+            .ret ⟨stEnv m' buf ++ [("saved_loc", .u64 at_), ("val", .u64 val)], m'.tape⟩ []
+      | none => runFun goFuns goParsedJson_annotate_previousloc fuel
+          ⟨stEnv m buf ++ [("saved_loc", .u64 at_), ("val", .u64 val)], m.tape⟩ = .panic) ∧
+    -- parseString
+    (∀ (idx max : UInt64) (cap : Int), idx.toNat ≤ buf.size → idx.toNat < 2^63 →
+      match m.parseString cfg buf idx.toNat max.toNat with
+      | some m' => ∃ e', runFun goFuns goparseString (fuel + 1) ⟨psEnv m buf idx max cfg.copyStrings cap, m.tape⟩ =
+          .ret ⟨e', m'.tape⟩ [.bool true] ∧ PSPost e' m' buf
+      | none => ∃ e', runFun goFuns goparseString (fuel + 1) ⟨psEnv m buf idx max cfg.copyStrings cap, m.tape⟩ =
+          .ret ⟨e', m.tape⟩ [.bool false] ∧ PSPost e' m buf) ∧
+    -- addNumber
+    (∀ (idx : Nat),
+      match parseNumber buf idx with
+      | some (tg, v) => ∃ e', runFun goFuns goaddNumber (fuel + 1)
+          ⟨stEnv m buf ++ [("buf", .bytes (buf.extract idx buf.size))], m.tape⟩ =
+            .ret ⟨e', (m.tape.push tg).push v⟩ [.bool true] ∧ PSPost e' { m with tape := (m.tape.push tg).push v } buf
+      | none => ∃ e', runFun goFuns goaddNumber (fuel + 1)
+          ⟨stEnv m buf ++ [("buf", .bytes (buf.extract idx buf.size))], m.tape⟩ = .ret ⟨e', m.tape⟩ [.bool false] ∧
+            PSPost e' m buf) :=
+  SJ.GoStage2.go_stage2_actions_source_tie m cfg buf fuel
 
 end SJ.Properties.C01
